@@ -343,12 +343,18 @@ Section Stream.
   Definition lookup_time_prefix (all : list M) (s : sctx) (t : N) : N :=
     stream_pos s (bres_idx (std_bsearch (fun m => N.compare (time_of m) t) all)).
 
-  (* binary_search_by_msg_index, files not sorted by time; None = the "err:" reply *)
-  Definition lookup_index (all : list M) (s : sctx) (idx : N) : option N :=
-    match std_bsearch (fun m => N.compare (index_of m) idx) all with
-    | BOk ai => Some (stream_pos s ai)
+  (* binary_search_by_msg_index has four branches: sort_by_time x filters_active.
+     Files not sorted by time (None = the "err:" reply): binary_search_by(msg.index) on all_msgs - relies on
+     msg.index being ascending along all_msgs - then (filters active) binary_search of that position in
+     filtered_msgs - relies on filtered_msgs being ascending - or (no filters) the position itself.
+     [bsA], [bsF]: the binary searches used (any result the contract allows, in the theorems). *)
+  Definition lookup_index_with (bsA : (M -> comparison) -> list M -> bres)
+      (bsF : (N -> comparison) -> list N -> bres) (all : list M) (s : sctx) (idx : N) : option N :=
+    match bsA (fun m => N.compare (index_of m) idx) all with
+    | BOk ai => Some (stream_pos_with bsF s ai)
     | BErr _ => None
     end.
+  Definition lookup_index : list M -> sctx -> N -> option N := lookup_index_with std_bsearch std_bsearch.
   (* before the repair dc44c55: filtered_msgs was searched although it is empty without filters *)
   Definition lookup_index_prefix (all : list M) (s : sctx) (idx : N) : option N :=
     match std_bsearch (fun m => N.compare (index_of m) idx) all with
@@ -362,9 +368,26 @@ Section Stream.
     | [] => None
     | m :: r => if index_of m =? idx then Some (pos, m) else find_index r idx (pos + 1)
     end.
-  Definition lookup_index_sorted (all : list M) (s : sctx) (idx : N) : option N :=
+  (* sort_by_time: the message is searched linearly (no order of msg.index is assumed), then (filters active) its
+     all_msgs position is binary-searched in filtered_msgs - relies on filtered_msgs being ascending only - or
+     (no filters) the position itself *)
+  Definition lookup_index_sorted_with (bsF : (N -> comparison) -> list N -> bres)
+      (all : list M) (s : sctx) (idx : N) : option N :=
     match find_index all idx 0 with
-    | Some (ai, _) => Some (stream_pos s ai)
+    | Some (ai, _) => Some (stream_pos_with bsF s ai)
+    | None => None
+    end.
+  Definition lookup_index_sorted : list M -> sctx -> N -> option N := lookup_index_sorted_with std_bsearch.
+  (* NOT the code: searching the stream's messages by msg.index (what the file-order branch may do, because there
+     msg.index ascends along the stream) in a time-sorted file, where it does not *)
+  Definition index_at (all : list M) (f : N) : N :=
+    match nthN all f with Some m => index_of m | None => 0 end.
+  Definition lookup_index_sorted_by_index (all : list M) (s : sctx) (idx : N) : option N :=
+    match find_index all idx 0 with
+    | Some (ai, _) =>
+        Some (if s_filters_active s
+              then bres_idx (std_bsearch (fun f => N.compare (index_at all f) idx) (s_filtered s))
+              else ai)
     | None => None
     end.
   (* before the repair 38c5743: a search by time among the stream's messages *)
